@@ -179,6 +179,34 @@ def run(prog, check):
     for cj, fn2, g, e2 in reads:
         check.ob('C08.R1', '%s::%s::discovers(%s)' % (e2.where.split(':')[0], fn2, g.cond.args[1].show()), True, e2.where,
                  'presence read in a discovery loop (checked against %d generation-phase creations)' % len([w for w in writes if w[3] == 'create']), '')
+    # ---- R1 (a'): a loop that looks for a variable on the sectors of its own country and defines that very variable on the
+    # sector running the loop finds itself in a later iteration - unless it stops at the first match.  Whether "itself" comes
+    # before or after the sector it was looking for is the declaration order.
+    from ..ledger import strip_sign as _strip
+    for ci, m, it in units:
+        for e in [x for x in it.effects if x.phase == 'gen' and x.role == SELF and x.loops]:
+            if e.kind == 'cashflow' and e.rhs is not None and not e.rhs.is_empty():
+                made = _strip(e.term)
+            elif e.kind == 'def' and e.mode == 'create':
+                made = e.name
+            else:
+                continue
+            lk = e.loops[-1][0]
+            coll = e.loops[-1][1]
+            if coll is None or coll.kind not in ('country_sectors', 'zone_sectors', 'model_sectors'):
+                continue
+            looked = [g_ for g_ in e.guards if g_.cond.kind == 'present' and mentions_elem(g_.cond.key(), lk) and len(g_.cond.args) > 1
+                      and unify(made, g_.cond.args[1])]
+            if not looked:
+                continue
+            stops = any(b_[0] == lk and b_[3] for b_ in it.breaks)
+            excluded = any(g_.cond.kind in ('is_self', 'same_object', 'sameid') and mentions_elem(g_.cond.key(), lk) for g_ in e.guards)
+            key = '%s::%s::finds-its-own-definition(%s)' % (e.where.split(':')[0], ci.name, made.show())
+            check.ob('C08.R1', key, stops or excluded, e.where,
+                     'the loop is left at the first match (or skips the sector itself)' if (stops or excluded) else
+                     'the loop over %s looks for %s and defines it on the sector running the loop, then goes on: if that sector comes later in '
+                     'the list it is found as well and the flow is booked on it a second time' % (lk, made.show()),
+                     'the sector that receives the flow declared before / after the sector that pays it')
     # ---- R1 (b) --------------------------------------------------------------------------------------
     for ci, fn, e, kind, nm in consts:
         key = '%s::%s::%s(%s.%s)' % (e.where.split(':')[0], fn, kind, short(e.role.key()), nm.show())
